@@ -123,6 +123,8 @@ REVERTS = {
     "revert-import-path-nul": ("519e959", ["C09"]),
     "revert-doc-comment-escaping": ("db7316f", ["C10"]),
     "revert-py-transitive-import": ("7fa578d", ["C10"]),
+    "revert-huge-integers": ("673ec99", ["C09"]),
+    "revert-undecodable-file": ("d521f45", ["C09"]),
 }
 for _n, (_c, _p) in REVERTS.items():
     CATALOGUE[_n] = (_p, [("@revert", _c, "")], f"revert of fix {_c}")
